@@ -39,6 +39,44 @@ def effect_calls(fl, body):
 # C12
 # ----------------------------------------------------------------------------------------
 
+def guard_in_callee(fl, b):
+    """The is_closed test of an operation may live in the private helper it starts with (`try_insert_in` begins with
+    `self.try_update(..)`, which tests the flag first and yields `Ok(None)` for a closed cache).  -> (callee name,
+    flat body of the operation) when `b` itself never loads the flag, calls exactly one such helper, every effect of
+    the helper is dominated by is_closed == false and the helper's closed edge returns Ok(None) / None; else None."""
+    facts = fl.facts
+    if any(is_call(norm(b.call_expr(t, True)), "load") and is_closed_lit(norm(b.call_expr(t, True))) for _, t in b.calls()):
+        return None
+    cands = []
+    for bi, t in b.calls():
+        c = b.callee_of(t)
+        if c.startswith(fl.cache + "::") and c != strip_generics(b.raw["root"]) and "{closure" not in c:
+            h = facts.body(c, required=False)
+            if h is not None:
+                cands.append((c, h))
+    if len(cands) != 1:
+        return None
+    c, h = cands[0]
+    at, entry = dataflow(h)
+    effs = effect_calls(fl, h)
+    if not effs:
+        return None
+    for bi, t, lab in effs:
+        for s in [expand_state(h, s_, hist=True) for s_ in at.get((bi, term_idx(h, bi)), set())]:
+            if [val for a, val in s.lits if is_closed_lit(a)] != [False]:
+                return None
+    okret = False
+    for rbi, rsi in h.defs.get(0, []):
+        e = norm(h.def_expr(rbi, rsi, True))
+        sts = [expand_state(h, s_, hist=True) for s_ in at.get((rbi, rsi), set())]
+        if sts and all([val for a, val in s_.lits if is_closed_lit(a)] == [True] for s_ in sts):
+            inner = e[3][0] if e[0] == "agg" and e[2].endswith("Result::Ok") and e[3] else e
+            okret = inner[0] == "agg" and inner[2].endswith("Option::None")
+    if not okret:
+        return None
+    return c, facts.flat(b)
+
+
 def check_closed_first(rep, fl, rule="R12.1", only_ops=None):
     """In every public operation named by C12 the first effect is dominated by the false edge of
     is_closed.load(); the closed edge returns false / None / Ok(()) without any effect."""
@@ -49,6 +87,34 @@ def check_closed_first(rep, fl, rule="R12.1", only_ops=None):
         if only_ops is not None and op not in only_ops:
             continue
         b = fl.cache_fn(op)
+        gic = guard_in_callee(fl, b) if op == "try_insert_in" else None
+        if gic is not None:
+            # the flag is tested by the helper the operation starts with: that call is the guard; whatever else the
+            # operation does happens where the helper's answer is known to be Some(..) (an open cache), and a None
+            # answer is turned into the neutral value
+            helper, b = gic
+            at, entry = dataflow(b)
+            effs = effect_calls(fl, b)
+            open_lit = lambda a, val: val is True and a[0] == "variant" and a[2] == "Some" and any(is_call(x, helper) for x in subexprs(norm(b.expand(a[1]))))
+            none_lit = lambda a, val: (val is True and a[0] == "variant" and a[2] == "None" or val is False and a[0] == "variant" and a[2] == "Some") and any(is_call(x, helper) for x in subexprs(norm(b.expand(a[1]))))
+            bad = None
+            for bi, t, lab in effs:
+                if strip_generics(b.callee_of(t)) == helper:
+                    continue
+                for s in [expand_state(b, s_, hist=True) for s_ in at.get((bi, term_idx(b, bi)), set())]:
+                    if not any(open_lit(a, val) for a, val in s.lits):
+                        bad = (lab, t, s)
+            rep.check(bad is None and bool(effs), rule, fl, b, "closed check first", "%s starts with %s, which tests is_closed before any effect and answers None for a closed cache; every other effect of %s is where that answer is Some (%d effects)" % (op, short(helper), op, len(effs)),
+                      "%s performs `%s` on a path that does not know the cache to be open (the is_closed test lives in %s): a closed cache still acts" % (op, bad[0] if bad else "?", short(helper)),
+                      loc=bad[1]["sp"] if bad else None)
+            okret = False
+            for rbi, rsi in b.defs.get(0, []):
+                e = norm(b.def_expr(rbi, rsi, True))
+                sts = [expand_state(b, s_, hist=True) for s_ in at.get((rbi, rsi), set())]
+                if sts and all(any(none_lit(a, val) for a, val in s_.lits) for s_ in sts):
+                    okret = e[0] == "agg" and e[2].endswith("Result::Ok") and e[3][0] == want[2]
+            rep.check(okret, rule, fl, b, "closed => neutral", "on a closed cache %s returns Ok(false) (the helper's None)" % op, "%s does not return the neutral value on its closed path" % op)
+            continue
         at, entry = dataflow(b)
         bodies = [b]
         effs = effect_calls(fl, b)
